@@ -421,6 +421,9 @@ type FuncContract struct {
 	Line       int
 	ResultName []string
 	Universal  []string // parameters the callee may drive arbitrarily (any sequence of method calls): universal client
+	// captured: an invariant over the variables a closure captures. Obligation where the closure is created and at the
+	// exits of the creating function and of the closure itself; assumed at the closure's entry.
+	Captured []Clause
 }
 
 type GhostStmt struct {
@@ -549,7 +552,7 @@ type Forward struct {
 var keywords = map[string]bool{"func": true, "trusted": true, "requires": true, "ensures": true, "ensures_panic": true,
 	"modifies": true, "may_panic": true, "noreturn": true, "inline": true, "mode": true, "props": true, "loop": true, "invariant": true,
 	"decreases": true, "pred": true, "spec": true, "ghost": true, "field": true, "monitor": true, "lockorder": true, "guards": true, "inv": true,
-	"objinv": true, "rely": true, "lemma": true, "ufun": true, "axiom": true, "universal": true, "atomic": true, "state": true, "guarantee": true, "induction": true, "forwards": true, "package": true, "pure": true, "results": true, "uses": true, "hint": true}
+	"objinv": true, "rely": true, "lemma": true, "ufun": true, "axiom": true, "universal": true, "atomic": true, "state": true, "guarantee": true, "induction": true, "forwards": true, "package": true, "pure": true, "results": true, "uses": true, "hint": true, "captured": true}
 
 // splitTop splits at commas that are not inside parentheses.
 func splitTop(s string) []string {
@@ -774,7 +777,7 @@ func (cs *Contracts) loadFile(path, repo string) error {
 				return fail(l, fmt.Errorf("guarantee outside atomic/monitor"))
 			}
 			curA.Guar = append(curA.Guar, c)
-		case "requires", "ensures", "ensures_panic", "invariant", "inv":
+		case "requires", "ensures", "ensures_panic", "invariant", "inv", "captured":
 			c, err := parseClause(l.rest)
 			if err != nil {
 				return fail(l, err)
@@ -784,6 +787,8 @@ func (cs *Contracts) loadFile(path, repo string) error {
 				curLem.Req = append(curLem.Req, c)
 			case curLem != nil && l.kw == "ensures":
 				curLem.Ens = append(curLem.Ens, c)
+			case curF != nil && l.kw == "captured":
+				curF.Captured = append(curF.Captured, c)
 			case curF != nil && l.kw == "requires":
 				curF.Requires = append(curF.Requires, c)
 			case curF != nil && l.kw == "ensures":
